@@ -345,7 +345,9 @@ Definition m_op (s o : omd) (op_ : op) : res (omd * out) :=
                                 | Some vs => Ok (k, length vs)
                                 end) (m_iterkeys s);
       Ok (s, OPairs (m_items (m_from_pairs l)))
-  | Inverted => Ok (s, OPairs (m_items (m_from_pairs (map (fun p => (snd p, fst p)) (m_items s)))))
+  | Inverted =>          (* cls((v, k) for k, v in ...): hashing an unhashable value raises *)
+      if existsb unhashable (map snd (m_items s)) then Raise TypeError
+      else Ok (s, OPairs (m_items (m_from_pairs (map (fun p => (snd p, fst p)) (m_items s)))))
   | Sorted f rv => Ok (s, OPairs (m_items (m_from_pairs (py_sorted (kf_item f) rv (m_items s)))))
   | SortedValues f rv => do r <- m_sortedvalues s f rv; Ok (s, OPairs (m_items r))
   | Repr => Ok (s, OPairs (m_items s))
